@@ -43,6 +43,10 @@ type streamableHTTPClientTransport struct {
 	// Custom HTTP headers to be added to all requests
 	httpHeaders http.Header
 
+	// stateMu guards sessionID, lastEventID, enableGetSSE and isStateless: they are written by
+	// whichever call (or stream) receives the server's answer and read by every concurrent call.
+	stateMu sync.RWMutex
+
 	// Session ID
 	sessionID string
 
@@ -257,15 +261,15 @@ func (t *streamableHTTPClientTransport) send(
 	// Set request headers - accept both SSE and JSON responses
 	httpReq.Header.Set(httputil.ContentTypeHeader, httputil.ContentTypeJSON)
 	httpReq.Header.Set(httputil.AcceptHeader, httputil.ContentTypeJSON+", "+httputil.ContentTypeSSE)
-	if t.sessionID != "" && !t.isStateless {
-		httpReq.Header.Set(httputil.SessionIDHeader, t.sessionID)
+	if sessionID := t.getSessionID(); sessionID != "" && !t.isStatelessMode() {
+		httpReq.Header.Set(httputil.SessionIDHeader, sessionID)
 	}
 
 	// If lastEventID is provided, attach it to the request
 	if options != nil && options.lastEventID != "" {
 		httpReq.Header.Set(httputil.LastEventIDHeader, options.lastEventID)
-	} else if t.lastEventID != "" {
-		httpReq.Header.Set(httputil.LastEventIDHeader, t.lastEventID)
+	} else if lastEventID := t.getLastEventID(); lastEventID != "" {
+		httpReq.Header.Set(httputil.LastEventIDHeader, lastEventID)
 	}
 
 	// Add custom headers
@@ -288,15 +292,9 @@ func (t *streamableHTTPClientTransport) send(
 		return nil, fmt.Errorf("%w: %v", ErrHTTPRequestFailed, err)
 	}
 
-	// Handle session ID
-	if sessionID := httpResp.Header.Get(httputil.SessionIDHeader); sessionID != "" {
-		t.setSessionID(sessionID)
-		t.isStateless = false
-	} else if req.Method == MethodInitialize && !t.isStateless {
-		// If this is an initialize request and no session ID was received, auto-detect as stateless mode
-		t.isStateless = true
-		t.enableGetSSE = false // Disable GET SSE in stateless mode
-	}
+	// Handle session ID. If this is an initialize request and no session ID was received, the
+	// client auto-detects stateless mode.
+	t.noteSessionFromResponse(httpResp.Header.Get(httputil.SessionIDHeader), req.Method == MethodInitialize)
 
 	// Check content type
 	contentType := httpResp.Header.Get(httputil.ContentTypeHeader)
@@ -470,7 +468,7 @@ func (t *streamableHTTPClientTransport) handleSSEResponse(
 
 			// Process event ID
 			if strings.HasPrefix(line, "id:") {
-				t.lastEventID = strings.TrimSpace(strings.TrimPrefix(line, "id:"))
+				t.setLastEventID(strings.TrimSpace(strings.TrimPrefix(line, "id:")))
 				continue
 			}
 
@@ -529,8 +527,8 @@ func (t *streamableHTTPClientTransport) sendNotification(ctx context.Context, no
 	// Set request headers - must accept both JSON and SSE responses per MCP specification.
 	httpReq.Header.Set(httputil.ContentTypeHeader, httputil.ContentTypeJSON)
 	httpReq.Header.Set(httputil.AcceptHeader, httputil.ContentTypeJSON+", "+httputil.ContentTypeSSE)
-	if t.sessionID != "" {
-		httpReq.Header.Set(httputil.SessionIDHeader, t.sessionID)
+	if sessionID := t.getSessionID(); sessionID != "" {
+		httpReq.Header.Set(httputil.SessionIDHeader, sessionID)
 	}
 
 	// Add custom headers
@@ -562,7 +560,7 @@ func (t *streamableHTTPClientTransport) sendNotification(ctx context.Context, no
 
 	// Handle session ID
 	if sessionID := httpResp.Header.Get(httputil.SessionIDHeader); sessionID != "" {
-		t.sessionID = sessionID
+		t.setSessionID(sessionID)
 	}
 
 	// Check status code
@@ -605,12 +603,52 @@ func (t *streamableHTTPClientTransport) close() error {
 
 // GetSessionID gets the session ID
 func (t *streamableHTTPClientTransport) getSessionID() string {
+	t.stateMu.RLock()
+	defer t.stateMu.RUnlock()
 	return t.sessionID
 }
 
 // SetSessionID sets the session ID
 func (t *streamableHTTPClientTransport) setSessionID(sessionID string) {
+	t.stateMu.Lock()
+	defer t.stateMu.Unlock()
 	t.sessionID = sessionID
+}
+
+// getLastEventID returns the ID of the last event received on any stream.
+func (t *streamableHTTPClientTransport) getLastEventID() string {
+	t.stateMu.RLock()
+	defer t.stateMu.RUnlock()
+	return t.lastEventID
+}
+
+// setLastEventID records the ID of the last event received.
+func (t *streamableHTTPClientTransport) setLastEventID(eventID string) {
+	t.stateMu.Lock()
+	defer t.stateMu.Unlock()
+	t.lastEventID = eventID
+}
+
+// getSSEEnabled reports whether the GET SSE stream is enabled.
+func (t *streamableHTTPClientTransport) getSSEEnabled() bool {
+	t.stateMu.RLock()
+	defer t.stateMu.RUnlock()
+	return t.enableGetSSE
+}
+
+// noteSessionFromResponse records what the response to a request says about the session: a session
+// ID makes the client stateful; an initialize answer without one makes it stateless (and disables
+// the GET SSE stream).
+func (t *streamableHTTPClientTransport) noteSessionFromResponse(sessionID string, isInitialize bool) {
+	t.stateMu.Lock()
+	defer t.stateMu.Unlock()
+	if sessionID != "" {
+		t.sessionID = sessionID
+		t.isStateless = false
+	} else if isInitialize && !t.isStateless {
+		t.isStateless = true
+		t.enableGetSSE = false // Disable GET SSE in stateless mode
+	}
 }
 
 // Establish GET SSE connection
@@ -655,7 +693,8 @@ func (t *streamableHTTPClientTransport) establishGetSSE(parentCtx context.Contex
 // Connect to GET SSE endpoint
 func (t *streamableHTTPClientTransport) connectGetSSE(ctx context.Context) error {
 	// Check if there's a session ID
-	if t.sessionID == "" {
+	sessionID := t.getSessionID()
+	if sessionID == "" {
 		return fmt.Errorf("cannot establish GET SSE connection: session ID is empty")
 	}
 
@@ -670,9 +709,9 @@ func (t *streamableHTTPClientTransport) connectGetSSE(ctx context.Context) error
 
 	// Set necessary headers
 	req.Header.Set(httputil.AcceptHeader, httputil.ContentTypeSSE)
-	req.Header.Set(httputil.SessionIDHeader, t.sessionID)
-	if t.lastEventID != "" {
-		req.Header.Set(httputil.LastEventIDHeader, t.lastEventID)
+	req.Header.Set(httputil.SessionIDHeader, sessionID)
+	if lastEventID := t.getLastEventID(); lastEventID != "" {
+		req.Header.Set(httputil.LastEventIDHeader, lastEventID)
 	}
 
 	// Add custom headers
@@ -689,7 +728,7 @@ func (t *streamableHTTPClientTransport) connectGetSSE(ctx context.Context) error
 		}
 	}
 
-	t.logger.Debugf("Attempting to establish GET SSE connection, session ID: %s", t.sessionID)
+	t.logger.Debugf("Attempting to establish GET SSE connection, session ID: %s", sessionID)
 
 	// Send request
 	resp, err := t.httpReqHandler.Handle(ctx, t.httpClient, req)
@@ -709,7 +748,7 @@ func (t *streamableHTTPClientTransport) connectGetSSE(ctx context.Context) error
 	}
 
 	// Handle response
-	t.logger.Debugf("GET SSE connection established, session ID: %s", t.sessionID)
+	t.logger.Debugf("GET SSE connection established, session ID: %s", sessionID)
 
 	// Handle SSE event stream
 	return t.handleGetSSEEvents(ctx, resp.Body)
@@ -745,7 +784,7 @@ func (t *streamableHTTPClientTransport) handleGetSSEEvents(ctx context.Context, 
 			if strings.HasPrefix(line, "id:") {
 				eventID = strings.TrimPrefix(line, "id:")
 				eventID = strings.TrimSpace(eventID)
-				t.lastEventID = eventID
+				t.setLastEventID(eventID)
 			} else if strings.HasPrefix(line, "data:") {
 				data := strings.TrimPrefix(line, "data:")
 				data = strings.TrimSpace(data)
@@ -764,7 +803,7 @@ func (t *streamableHTTPClientTransport) handleGetSSEEvents(ctx context.Context, 
 // Process SSE event.
 func (t *streamableHTTPClientTransport) processSSEEvent(ctx context.Context, eventID, eventData string) {
 	// Store the last event ID for connection recovery.
-	t.lastEventID = eventID
+	t.setLastEventID(eventID)
 
 	// Skip empty events.
 	if eventData == "" {
@@ -907,8 +946,8 @@ func (t *streamableHTTPClientTransport) sendResponseToServer(parentCtx context.C
 	}
 
 	// Add session ID if available
-	if t.sessionID != "" {
-		httpReq.Header.Set(httputil.SessionIDHeader, t.sessionID) // Use correct MCP protocol header: Mcp-Session-Id.
+	if sessionID := t.getSessionID(); sessionID != "" {
+		httpReq.Header.Set(httputil.SessionIDHeader, sessionID) // Use correct MCP protocol header: Mcp-Session-Id.
 	}
 
 	// Apply HTTP before-request functions.
@@ -951,8 +990,8 @@ func (t *streamableHTTPClientTransport) terminateSession(ctx context.Context) er
 	}
 
 	// Set session ID header
-	if t.sessionID != "" {
-		httpReq.Header.Set(httputil.SessionIDHeader, t.sessionID)
+	if sessionID := t.getSessionID(); sessionID != "" {
+		httpReq.Header.Set(httputil.SessionIDHeader, sessionID)
 	} else {
 		return fmt.Errorf("no active session")
 	}
@@ -986,7 +1025,7 @@ func (t *streamableHTTPClientTransport) terminateSession(ctx context.Context) er
 	}
 
 	// Session successfully terminated, clear session ID
-	t.sessionID = ""
+	t.setSessionID("")
 
 	return nil
 }
@@ -1000,6 +1039,8 @@ func (t *streamableHTTPClientTransport) terminateSession(ctx context.Context) er
 // If it returns true, the client is currently running in stateless mode and will not include
 // a session ID in requests or attempt to establish GET SSE connections.
 func (t *streamableHTTPClientTransport) isStatelessMode() bool {
+	t.stateMu.RLock()
+	defer t.stateMu.RUnlock()
 	return t.isStateless
 }
 
@@ -1014,12 +1055,12 @@ func (t *streamableHTTPClientTransport) sendRequestWithStream(
 
 // establishGetSSEConnection attempts to establish a GET SSE connection if enabled
 func (t *streamableHTTPClientTransport) establishGetSSEConnection(ctx context.Context) {
-	if !t.enableGetSSE {
+	if !t.getSSEEnabled() {
 		t.logger.Debug("GET SSE is not enabled, will not establish GET SSE connection")
 		return
 	}
 
-	if t.sessionID == "" {
+	if t.getSessionID() == "" {
 		t.logger.Debug("Session ID is empty, cannot establish GET SSE connection")
 		return
 	}
